@@ -119,4 +119,47 @@ theorem C03_fd_reuse_counterexample :
     cbsWhere (pass (twoFds [.close 1, .init 2 1 1 false, .enable 2]) [(0, 1), (1, 1)]) (fun _ => true) = [0] := by
   decide
 
+/-- `removeInvalidFds` as found: a range-for over the live subscriber vector while `disable()` erases
+from it — position `i` of the shrinking vector is read for every `i` below the ORIGINAL size -/
+def disableAllAF (f : Nat) : List Nat → State → State
+  | [], s => s
+  | i :: is, s =>
+    match s.recs f with
+    | none => s
+    | some r =>
+      match r.subs[i]? with
+      | some e => disableAllAF f is (disableEv s e).1
+      | none => s.emit (.bad .pastEnd)
+
+def removeInvalidAF (s : State) (f : Nat) : State :=
+  match s.recs f with
+  | none => s
+  | some r => disableAllAF f (List.range r.subs.length) s
+
+/-- three events enabled on descriptor 0, which is then closed -/
+def threeOnClosed : State :=
+  runSteps [.newEv [], .newEv [], .newEv [], .api (.init 0 0 1 false), .api (.init 1 0 1 false), .api (.init 2 0 1 false),
+            .api (.enable 0), .api (.enable 1), .api (.enable 2), .api (.kill 0)]
+
+/-- select as found, EBADF: the vector is read past its end and event 1 stays enabled on the closed
+descriptor (the next `select` fails again); the repaired loop disables all three -/
+theorem C03_badf_partial_disable_counterexample :
+    badfTrigger threeOnClosed [0] = true ∧
+    hasBad (removeInvalidAF threeOnClosed 0) .pastEnd = true ∧
+    ((removeInvalidAF threeOnClosed 0).evs 1).enabled = true ∧
+    badfTrigger (removeInvalidAF threeOnClosed 0) [0] = true ∧
+    badfTrigger (removeInvalid threeOnClosed [0]) [0] = false := by decide
+
+/-- what the epoll back-end as found can be told about descriptor `f`: it asks for EPOLLERR, not
+EPOLLPRI, so pending out-of-band data is never reported -/
+def reportedEpollAF (s : State) (f : Nat) : Nat :=
+  s.kern f &&& (actualMask s f &&& 3)
+
+/-- an except subscriber and out-of-band data: select reports the except condition, epoll as found
+reports nothing — the back-ends disagree on an order-independent (single-descriptor) pass -/
+theorem C03_except_backends_counterexample :
+    let s := runSteps [.newEv [], .api (.init 0 0 4 false), .api (.enable 0), .api (.oob 0)]
+    validReady .select s [(0, 4)] = true ∧ cbsWhere (pass s [(0, 4)]) (fun _ => true) = [0] ∧
+    reportedEpollAF s 0 = 0 ∧ validReady .epoll s [(0, 4)] = true := by decide
+
 end Tbox.C03
